@@ -36,6 +36,8 @@ def run_task(name):
         ctx = Ctx()
         info = task(ctx)
         out["function"] = info
+        if ctx.obligations:
+            verify.add_strfact_obligations(ctx, name)
         if not ctx.obligations:
             out["status"] = "vacuous"
         timeout = int(os.environ.get("PYVC_TIMEOUT_MS", "10000"))
@@ -123,7 +125,14 @@ def main():
             print("unknown tasks in plan:", missing, file=sys.stderr)
             sys.exit(3)
     with mp.Pool(min(a.procs, max(1, len(names)))) as pool:
-        results = pool.map(run_task, names, chunksize=1)
+        if a.relock:
+            results = []
+            for r in pool.imap_unordered(run_task, names, chunksize=1):
+                results.append(r)
+                print(f"  .. {r['task']} {r['status']} {r['wall_s']}s", file=sys.stderr, flush=True)
+            results.sort(key=lambda r: names.index(r["task"]))
+        else:
+            results = pool.map(run_task, names, chunksize=1)
     if a.relock:
         lock = {}
         for r in results:
